@@ -87,7 +87,7 @@ class C20(PropertyCheck):
                 def operand():
                     return rng.choice([0, 1, -1, 2, -3, 6, 2 ** 63, -2 ** 63, 2 ** 64 + 1, 2 ** 70, -(2 ** 70) + 1, rng.randint(-2 ** 70, 2 ** 70), rng.randint(-50, 50)])
                 a, b, c, d = operand(), operand(), operand(), operand()
-                kind = rng.choice(['make', 'add', 'sub', 'mul', 'div', 'cmp', 'floor', 'from_float'])
+                kind = rng.choice(['make', 'add', 'sub', 'mul', 'div', 'cmp', 'floor', 'from_float', 'pow', 'pow'])
                 if kind == 'from_float':
                     import fractions
                     fl = rng.choice([0.5, -0.75, 4503599627370496.0, -4503599627370496.0, -9007199254740992.0, 1e300, -1e300, 5e-324, -5e-324, 0.1, -0.1, 3.0, -3.0,
@@ -100,6 +100,11 @@ class C20(PropertyCheck):
                     rr = rr.replace('e+', 'e')
                     fll = f'(-{rr})' if fl < 0 else rr
                     add('fraction/from_float', f'to_str(members(fraction({fll})))', None, f'({fr.numerator}, {fr.denominator})')
+                    continue
+                if kind == 'pow':
+                    a, b = rng.choice([0, 1, -1, 2, -2, -3, 5, 6, -7, 10]), rng.choice([1, 2, 3, -3, 4, 6, -9])
+                    e_ = rng.choice([0, 1, 2, 3, -1, -2, -3, -5, 7])
+                    add('fraction/pow', f'to_str(members(fraction({big(a)}, {big(b)}) ** {big(e_)}))', f'rfrac (do x <- fraction ({a}) ({b}); fpow x ({e_}))', None)
                     continue
                 if kind == 'make':
                     add('fraction', f'to_str(members(fraction({big(a)}, {big(b)})))', f'rfrac (fraction ({a}) ({b}))', None)
@@ -130,10 +135,17 @@ class C20(PropertyCheck):
                 if b in (2, 8, 16) and rng.random() < 0.5:
                     spec = {2: 'b', 8: 'o', 16: 'x'}[b]
                     add('format_to_int', f'to_str(({big(v)}).abs().format("{spec}").to_int({b}) == ({big(v)}).abs())', None, 'true', abs(v) >= 2 ** 63)
+                    # signed: text in the base and back, also below -2^63
+                    add('format_to_int_signed', f'to_str(({big(v)}).format("{spec}").to_int({b}) == ({big(v)})) + ({big(v)}).format("{spec}")', None,
+                        'true' + to_base(v, b), abs(v) >= 2 ** 63)
             else:
                 c = rng.choice([0, 0x41, 0x7f, 0x80, 0x7ff, 0x800, 0xffff, 0x10000, 0x10ffff, 0xd7ff, 0xe000, 0xd800, 0xdfff, 0x110000, -1, 2 ** 32, rng.randint(0, 0x10ffff)])
                 valid = 0 <= c <= 0x10ffff and not (0xd800 <= c <= 0xdfff)
                 add('chr', f'to_str(chr({lit(c)}).code_point()) + to_str(chr({lit(c)}).len())', None, f'{c}1' if valid else None, True)
+        # designated: negative integers below -2^63 written in bases 2 / 8 / 16 and read back
+        for v in [-(2 ** 64), -(2 ** 127) - 1, -(10 ** 30), -(2 ** 63) - 1, 2 ** 64, -(2 ** 63)]:
+            for b, spec in ((2, 'b'), (8, 'o'), (16, 'x')):
+                add('format_to_int_signed', f'to_str(({big(v)}).format("{spec}").to_int({b}) == ({big(v)})) + ({big(v)}).format("{spec}")', None, 'true' + to_base(v, b), True)
         return cases
 
     def nontrivial(self, case, impl, model):
